@@ -42,3 +42,67 @@ STREAM(alias_mul) {
   }
   spqlios_verif_set_cpu_mask(0, 0, 0);
 }
+
+// large dimensions with every pointer 8 bytes off a 64-byte boundary vs the same data on 64-byte aligned buffers:
+// bitwise equal results (C15: no dependence on alignment), and no fault (a kernel that switches to aligned or
+// streaming stores above some size shows as a crash here)
+typedef void (*Mul3)(const void* tables, double* r, const double* a, const double* b);
+typedef void (*Tr1)(const void* tables, void* data);
+static double* aligned_doubles(size_t n, size_t off_bytes, std::vector<void*>& keep) {
+  void* p = nullptr;
+  if (posix_memalign(&p, 64, n * 8 + 128)) abort();
+  keep.push_back(p);
+  return (double*)((uint8_t*)p + off_bytes);
+}
+static void big_mul_case(Out& out, Rng& rng, const char* name, Mul3 fn, const void* tables, uint32_t m, int accumulate) {
+  size_t nd = 2 * (size_t)m;
+  std::vector<void*> keep;
+  double *a0 = aligned_doubles(nd, 0, keep), *b0 = aligned_doubles(nd, 0, keep), *r0 = aligned_doubles(nd, 0, keep);
+  double *a1 = aligned_doubles(nd, 8, keep), *b1 = aligned_doubles(nd, 8, keep), *r1 = aligned_doubles(nd, 8, keep);
+  for (size_t i = 0; i < nd; i++) {
+    a0[i] = a1[i] = (double)rng.sbits(20) / 1024.0 + 1.0 / 3.0;
+    b0[i] = b1[i] = (double)rng.sbits(20) / 512.0 - 1.0 / 7.0;
+    r0[i] = r1[i] = accumulate ? (double)rng.sbits(12) : -7.0;
+  }
+  fn(tables, r0, a0, b0);
+  fn(tables, r1, a1, b1);
+  std::string verdict = memcmp(r0, r1, nd * 8) ? std::string("FAIL C15 ") + name + " depends on the alignment of its buffers (m=" + std::to_string(m) + ")" : "ok";
+  fprintf(out.ops, "ca nop big_align %s m=%u", name, m);
+  fprintf(out.real, "nop");
+  out.endcase(verdict);
+  out.count(name);
+  for (void* p : keep) free(p);
+}
+static void big_tr_case(Out& out, Rng& rng, const char* name, Tr1 fn, const void* tables, uint32_t m) {
+  size_t nd = 2 * (size_t)m;
+  std::vector<void*> keep;
+  double *d0 = aligned_doubles(nd, 0, keep), *d1 = aligned_doubles(nd, 8, keep);
+  for (size_t i = 0; i < nd; i++) d0[i] = d1[i] = (double)rng.sbits(30) / 4096.0 + 1.0 / 3.0;
+  fn(tables, d0);
+  fn(tables, d1);
+  std::string verdict = memcmp(d0, d1, nd * 8) ? std::string("FAIL C15 ") + name + " depends on the alignment of its buffer (m=" + std::to_string(m) + ")" : "ok";
+  fprintf(out.ops, "ca nop big_align %s m=%u", name, m);
+  fprintf(out.real, "nop");
+  out.endcase(verdict);
+  out.count(name);
+  for (void* p : keep) free(p);
+}
+
+STREAM(big_align) {
+  for (int mask = 0; mask < 2; mask++) {
+    spqlios_verif_set_cpu_mask(mask, mask, mask);
+    for (uint32_t m : (thorough ? std::vector<uint32_t>{2048, 4096, 16384, 32768, 65536} : std::vector<uint32_t>{4096, 16384})) {
+      { auto* t = new_reim_fftvec_mul_precomp(m); big_mul_case(out, rng, "reim_fftvec_mul", (Mul3)reim_fftvec_mul, t, m, 0); free(t); }
+      { auto* t = new_reim_fftvec_addmul_precomp(m); big_mul_case(out, rng, "reim_fftvec_addmul", (Mul3)reim_fftvec_addmul, t, m, 1); free(t); }
+      { auto* t = new_cplx_fftvec_mul_precomp(m); big_mul_case(out, rng, "cplx_fftvec_mul", (Mul3)cplx_fftvec_mul, t, m, 0); free(t); }
+      { auto* t = new_cplx_fftvec_addmul_precomp(m); big_mul_case(out, rng, "cplx_fftvec_addmul", (Mul3)cplx_fftvec_addmul, t, m, 1); free(t); }
+      { auto* t = new_reim4_fftvec_mul_precomp(m); big_mul_case(out, rng, "reim4_fftvec_mul", (Mul3)reim4_fftvec_mul, t, m, 0); free(t); }
+      { auto* t = new_reim4_fftvec_addmul_precomp(m); big_mul_case(out, rng, "reim4_fftvec_addmul", (Mul3)reim4_fftvec_addmul, t, m, 1); free(t); }
+      { auto* t = new_reim_fft_precomp(m, 0); big_tr_case(out, rng, "reim_fft", (Tr1)reim_fft, t, m); free(t); }
+      { auto* t = new_reim_ifft_precomp(m, 0); big_tr_case(out, rng, "reim_ifft", (Tr1)reim_ifft, t, m); free(t); }
+      { auto* t = new_cplx_fft_precomp(m, 0); big_tr_case(out, rng, "cplx_fft", (Tr1)cplx_fft, t, m); free(t); }
+      { auto* t = new_cplx_ifft_precomp(m, 0); big_tr_case(out, rng, "cplx_ifft", (Tr1)cplx_ifft, t, m); free(t); }
+    }
+  }
+  spqlios_verif_set_cpu_mask(0, 0, 0);
+}
